@@ -245,8 +245,12 @@ where
 
         // after the request, evaluate if we have additional queries to perform
         let result = match records {
-            Ok(Records::CnameChain { next: future, .. }) => match future.await {
-                Ok(lookup) => client.cname(lookup, query),
+            Ok(Records::CnameChain {
+                next: future,
+                cname_ttl,
+                ..
+            }) => match future.await {
+                Ok(lookup) => client.cname(lookup, query, cname_ttl),
                 Err(e) => client.cache(query, Err(e)),
             },
             Ok(Records::Exists { message }) => client.cache(query, Ok(message)),
@@ -310,7 +314,7 @@ where
         // FIXME: for SRV this evaluation is inadequate. CNAME is a single chain to a single record
         //   for SRV, there could be many different targets. The search_name needs to be enhanced to
         //   be a list of names found for SRV records.
-        let (search_name, was_cname, preserved_records) = {
+        let (search_name, was_cname, preserved_records, cname_ttl) = {
             // this will only search for CNAMEs if the request was not meant to be for one of the triggers for recursion
             let (search_name, cname_ttl, was_cname) =
                 if query.query_type.is_any() || query.query_type.is_cname() {
@@ -455,7 +459,7 @@ where
                 None
             }));
 
-            (search_name.into_owned(), was_cname, preserved_records)
+            (search_name.into_owned(), was_cname, preserved_records, cname_ttl)
         };
 
         // TODO: for SRV records we *could* do an implicit lookup, but, this requires knowing the type of IP desired
@@ -474,6 +478,7 @@ where
                     preserved_records,
                     depth.nest(),
                 )),
+                cname_ttl,
                 #[cfg(test)]
                 preserved_records,
             })
@@ -489,14 +494,26 @@ where
     }
 
     #[allow(clippy::unnecessary_wraps)]
-    fn cname(&self, lookup: Lookup, query: Query) -> Result<Lookup, NetError> {
+    fn cname(&self, lookup: Lookup, query: Query, cname_ttl: u32) -> Result<Lookup, NetError> {
+        let now = Instant::now();
+
+        // The alias that led to these records bounds how long they may be used for `query`, even
+        // when the CNAME records themselves are not preserved in the answer.
+        let mut lookup_message = lookup.message().clone();
+        for record in &mut lookup_message.answers {
+            record.ttl = record.ttl.min(cname_ttl);
+        }
+        let valid_until = lookup
+            .valid_until()
+            .min(now + Duration::from_secs(u64::from(cname_ttl)));
+
         let mut message = Message::response(0, OpCode::Query);
         message.add_query(query.clone());
-        message.add_answers(lookup.answers().iter().cloned());
-        message.add_authorities(lookup.authorities().iter().cloned());
-        message.add_additionals(lookup.additionals().iter().cloned());
-        self.cache.insert(query, Ok(message), Instant::now());
-        Ok(lookup)
+        message.add_answers(lookup_message.answers.iter().cloned());
+        message.add_authorities(lookup_message.authorities.iter().cloned());
+        message.add_additionals(lookup_message.additionals.iter().cloned());
+        self.cache.insert(query, Ok(message), now);
+        Ok(Lookup::new(lookup_message, valid_until))
     }
 
     fn cache(&self, query: Query, result: Result<Message, NetError>) -> Result<Lookup, NetError> {
@@ -543,6 +560,8 @@ enum Records<F> {
     /// Future lookup for recursive cname records
     CnameChain {
         next: F,
+        /// The minimum TTL of the CNAME records that led to `next`
+        cname_ttl: u32,
         #[cfg(test)]
         preserved_records: Vec<Record>,
     },
